@@ -32,10 +32,11 @@ type Monitors struct {
 	prevSubs map[int64]*subSnap
 	subReleased map[int64]*big.Int
 	subDirect   map[int64]*big.Int
+	grantExp    map[[3]int64]int64 // (granter, grantee, kind) -> expiry of the grant as it was given
 }
 
 func NewMonitors() *Monitors {
-	return &Monitors{phStep: -99, subReleased: map[int64]*big.Int{}, subDirect: map[int64]*big.Int{}}
+	return &Monitors{phStep: -99, subReleased: map[int64]*big.Int{}, subDirect: map[int64]*big.Int{}, grantExp: map[[3]int64]int64{}}
 }
 
 func attr(ev abci.Event, key string) string {
